@@ -2,12 +2,12 @@ package main
 
 import (
 	"bufio"
-	"time"
-	"github.com/mandykoh/prism/meta"
 	"bytes"
 	"encoding/binary"
 	"fmt"
+	"github.com/mandykoh/prism/meta"
 	"strings"
+	"time"
 
 	"github.com/mandykoh/prism/meta/icc"
 )
